@@ -2,6 +2,7 @@
 
 TB_GEN = [
     "the emitted-code model (PilotaModel/TGen) is hand-written from pilota-build's templates; it is compared on every run with the code the REAL pilota_build::Builder emits for the run's document set (compiled into harness/genrun), through decode -> re-encode -> canonical value",
+    "T2 for the templates: the per-type arms of codegen_encode_ty / codegen_encode_field / codegen_ty_size / codegen_field_size / codegen_decode_ty / ttype (pilota-build/src/codegen/thrift/ty.rs) and the write_field! / field_len! instantiations (pilota/src/thrift/mod.rs) are re-extracted into Gen/Templates.lean on every run; Props/Templates.lean proves over them that the five templates call the twins of one primitive per type and that the declared wire type is the one the runtime's field helper announces",
     "bin/idlgen.py: document generator, IDL renderer, and the independent Python oracle `project` (what a decoder must return)",
     "observation of emitted values is through their binary re-encoding read back by the dynamic reader (hash-container order canonicalised); an emitted decoder bug cancelled exactly by an emitted encoder bug would not be seen",
     "requests marked hazard=D26 / hazard=D29 (inputs that run into those known findings) are checked by the oracle only, not by T1",
@@ -11,8 +12,8 @@ TB_GEN = [
 def register(prop, TB):
     tb = TB + TB_GEN
     gen = lambda name: [{"name": name, "bin": "genrun", "pygen": "requests_" + name}]
-    prop("C02", lean_props=["C02", "C01"], bins=["rt", "gentool"], streams=gen("C02"), oracle_tags=["C02", "C04", "C11", "C12"], trusted_base=tb)
-    prop("C08", lean_props=["C08"], bins=["rt", "gentool"], streams=gen("C08"), oracle_tags=["C08"], trusted_base=tb)
+    prop("C02", lean_props=["C02", "C01", "Templates"], bins=["rt", "gentool"], streams=gen("C02"), oracle_tags=["C02", "C04", "C11", "C12"], trusted_base=tb)
+    prop("C08", lean_props=["C08", "Templates"], bins=["rt", "gentool"], streams=gen("C08"), oracle_tags=["C08"], trusted_base=tb)
     prop("C20", lean_props=["C20", "C20b"], bins=["rt", "gentool"], streams=gen("C20"), oracle_tags=["C20", "C02"], trusted_base=tb)
     prop("C13", lean_props=["C13"], bins=["rt", "gentool"], streams=gen("C13"), oracle_tags=["C13", "C04", "C11"], trusted_base=tb + [
         "retained chunks are represented in the model by the field value they encode (Binary.readVal of the same bytes); the pointer/offset bookkeeping of the emitted code (__pilota_begin_ptr, __pilota_offset, get_bytes) is covered by T1 only",
